@@ -194,11 +194,17 @@ def cases(thorough: bool) -> List[dict]:
     rest = allpairs(rest_dims) if not thorough else list(itertools.product(*rest_dims))
     for n in sizes:
         for i, (test, num_RC, nF) in enumerate(drive):
-            if test == "cnls" and (n > 8 or (nF not in (0, 10) and not thorough) or num_RC == "2n"):
+            if test == "cnls" and num_RC == "2n":
                 continue
+            if test == "cnls" and (n > 12 or (n > 8 and not (num_RC == "auto" and nF == 0)) or (nF not in (0, 10) and not thorough)):
+                continue   # the real cnls kernel is slow: 12 points only with automatic num_RC and no F_ext evaluation
             if n == 41 and (nF in (21, -10)) and not thorough:
                 continue
-            rows = rest if (thorough and test != "cnls" and n <= 12) else [rest[(i + j * 5) % len(rest)] for j in range(3 if not thorough else 4)]
+            if test == "cnls" and n > 8:
+                rows_n = 2
+            else:
+                rows_n = 3 if not thorough else 4
+            rows = rest if (thorough and test != "cnls" and n <= 12) else [rest[(i + j * 5) % len(rest)] for j in range(rows_n)]
             for adm, C, L, rapid, lims in rows:
                 out.append({"entry": "kk", "n": n, "test": test, "num_RC": num_RC, "nF": nF, "adm": adm, "C": C, "L": L, "rapid": rapid, "lims": lims})
     # --- Z-HIT
@@ -245,7 +251,7 @@ def run(ctx) -> None:
     ctx.exhaustive = True
     ctx.assumptions = ["refusal = TypeError/ValueError/library error raised by an explicit `raise` statement in pyimpspec code other than the Progress counter's own check",
                        "whether a refusal happens before or after the first notification is recorded as a statistic only",
-                       "the cnls kernel is run for real on <= 8 points only (no kernel abstraction was built)"]
+                       "the cnls kernel is run for real on <= 8 points (12 points with automatic num_RC and no F_ext evaluation); no kernel abstraction was built"]
     cs = cases(thorough)
     heavy = [c for c in cs if c["entry"] == "kk" and (c["test"] == "cnls" or c["nF"] != 0)] + [c for c in cs if c["entry"] == "fit" and c["method"] == "auto"]
     hid = set(map(id, heavy))
